@@ -624,6 +624,60 @@ def _same_object_cases():
     ]
 
 
+ORDINARY_VALUES = {"list": [1, 2], "nested-list": [[1], [2, [3]]], "dict": {"k": 1}, "dict-of-list": {"k": [1, {"z": []}]}, "list-of-dict": [{"a": 1}, {}],
+                   "empty-list": [], "empty-dict": {}}
+ORDINARY_PATHS = {"list": ["v"], "nested-list": ["v", "v[0]", "v[1][1]"], "dict": ["v"], "dict-of-list": ["v", "v.k", "v.k[1]", "v.k[1].z"],
+                  "list-of-dict": ["v", "v[0]", "v[1]"], "empty-list": ["v"], "empty-dict": ["v"]}
+ORDINARY_ARRAY_OBS = ["X instanceof Array", "X instanceof Object", "Array.isArray(X)", "Object.getPrototypeOf(X) === Object.getPrototypeOf([])",
+                      "X.constructor === [].constructor", "typeof X.map === 'function'", "X.hasOwnProperty('length')", "typeof X.hasOwnProperty === 'function'",
+                      "X.concat([9]).length === X.length + 1", "X.map(function (q) { return q }) instanceof Array",
+                      "(function () { Object.getPrototypeOf([]).viaProto = 5; return X.viaProto === 5 })()"]
+ORDINARY_OBJECT_OBS = ["X instanceof Object", "!(X instanceof Array)", "Object.getPrototypeOf(X) === Object.getPrototypeOf({})", "X.constructor === ({}).constructor",
+                       "typeof X.hasOwnProperty === 'function'", "X.hasOwnProperty('nope') === false", "X.toString() === '[object Object]'", "!Array.isArray(X)",
+                       "(function () { Object.getPrototypeOf({}).viaProto = 6; return X.viaProto === 6 })()"]
+
+
+def run_ordinary(payload):
+    """Containers that come from the host are ordinary arrays / objects of the context they arrive in."""
+    from mc.props.common import engine
+    e = engine()
+    e.CLOCK.reset("poll")
+    ctx = e.Context(time_limit=100)
+    value = ORDINARY_VALUES[payload["value"]]
+    how = payload["how"]
+    if how == "set":
+        ctx.set("v", value)
+        pre = ""
+    elif how == "returned":
+        ctx.set("mk", lambda: value)
+        pre = "var v = mk(); "
+    elif how == "returned-to-callback":
+        ctx.set("mk", lambda *a: value)
+        pre = "var v = [0].map(mk)[0]; "
+    else:       # nested in a dict handed over with set
+        ctx.set("holder", {"inner": value, "fn": (lambda: value)})
+        pre = "var v = %s; " % ("holder.inner" if how == "nested" else "holder.fn()")
+    bad = []
+    for path in ORDINARY_PATHS[payload["value"]]:
+        probe = value
+        # which kind is the thing at this path?
+        kind = "array" if isinstance(eval(path.replace("v", "value", 1).replace(".k", "['k']").replace(".z", "['z']"), {"value": value}), list) else "object"
+        for o in (ORDINARY_ARRAY_OBS if kind == "array" else ORDINARY_OBJECT_OBS):
+            src = pre + o.replace("X", "(" + path + ")")
+            try:
+                r = ctx.eval(src)
+            except Exception as ex:  # noqa: BLE001
+                r = "raises " + type(ex).__name__
+            if r is not True:
+                bad.append("%s -> %r" % (o.replace("X", path), r))
+    return ("ok" if not bad else "; ".join(bad[:4])) + "\x00ok"
+
+
+def _ordinary_cases():
+    return [("%s %s" % (v, how), {"value": v, "how": how}) for v in ORDINARY_VALUES
+            for how in ("set", "returned", "returned-to-callback", "nested", "nested-callable")]
+
+
 def _sp(name, runner, fn, rule, bound, batch=100):
     return Space(name, "mc.props.c11:" + runner, fn, oracle="inline", rule=rule, bound=bound, batch=batch, watchdog=60,
                  nontrivial=lambda cid, p, exp: True)
@@ -676,6 +730,11 @@ def spaces(tier, seed, all_strata=False):
         _sp("c11_same_object", "run_same_object", _same_object_cases,
             "a callable that returns one and the same mutable Python object on every call (changed by the host, or its copy changed by "
             "the script, in between): every call delivers a fresh conversion of the current contents", "6 scenarios", batch=2),
+        _sp("c11_ordinary", "run_ordinary", _ordinary_cases,
+            "7 host containers (lists, dicts, nested both ways, empty) x 5 ways of arriving (set, returned by a callable, returned to a "
+            "built-in's callback, nested in a dict, returned by a callable nested in a dict) x every container inside them x %d / %d "
+            "tests that it is an ordinary array / object of the context (instanceof, prototype identity, constructor, inherited methods, "
+            "hasOwnProperty, a property added to the prototype shows)" % (len(ORDINARY_ARRAY_OBS), len(ORDINARY_OBJECT_OBS)), "7 x 5 x paths", batch=5),
         _sp("c11_chains", "run_roundtrip", _chains, "nesting chains of depth 10..2000, shared sub-objects, non-JSON host values",
             "depth sweep", batch=2),
         _sp("c11_histories_d4", "run_history", lambda: _histories(4),
